@@ -110,7 +110,60 @@ def same(a, b):
         return False
 
 
+def resolve_class_case(case):
+    """compound / list / plain traits with an Instance given by class NAME: after the name has been resolved (first use) the
+    compiled path must still decide like the handler's Python-level validate for values of every alternative"""
+    import traits.api as T
+    from traits.api import HasTraits, TraitError
+    violated, probes = [], 0
+    import sys as _sys
+    mod = _sys.modules[__name__]
+
+    class Target(HasTraits):
+        pass
+    mod.Target = Target
+    Target.__module__ = __name__
+    decls = {"Either(Int, Instance('Target'))": lambda: T.Either(T.Int, T.Instance(__name__ + ".Target")),
+             "Trait('', Str, Instance('Target'))": lambda: T.Trait("", T.Str, T.Instance(__name__ + ".Target")),
+             "Instance('Target')": lambda: T.Instance(__name__ + ".Target"),
+             "List(Instance('Target'))": lambda: T.List(T.Instance(__name__ + ".Target")),
+             "Union(Int, Instance('Target'))": lambda: T.Union(T.Int, T.Instance(__name__ + ".Target"))}
+    values = [3, -1, True, "abc", "", 1.5, None, Target(), [Target()], [], object()]
+    for label, mk in decls.items():
+        for trigger in (Target(), 1.5, [Target()], None):
+            class A(HasTraits):
+                x = mk()
+            a = A()
+            try:
+                a.x = trigger           # first use: resolves the class name
+            except TraitError:
+                pass
+            handler = A.class_traits()["x"].handler
+            for v in values:
+                probes += 1
+                b = A()
+                try:
+                    b.x = v
+                    c_out = "ok"
+                except TraitError:
+                    c_out = "TraitError"
+                except Exception as e:
+                    c_out = "raises %s" % type(e).__name__
+                try:
+                    handler.validate(A(), "x", v)
+                    p_out = "ok"
+                except TraitError:
+                    p_out = "TraitError"
+                except Exception as e:
+                    p_out = "raises %s" % type(e).__name__
+                if (c_out == "ok") != (p_out == "ok"):
+                    violated.append("%s after resolving through %r <- %r: compiled path %s, Python validate %s" % (label, type(trigger).__name__, v, c_out, p_out))
+    return dict(reproduced=bool(violated), violated=violated[:8], probes=probes)
+
+
 def run(case):
+    if case.get("family") == "resolve_class":
+        return resolve_class_case(case)
     from traits.api import HasTraits, TraitError
     fam = case.get("family")
     violated, probes = [], 0
